@@ -455,6 +455,49 @@ def main(tier):
     n_rnd, size = (6000, 5) if tier == "quick" else (150000, 6)
     rnd = [random_tree(rng, rng.randint(2, size), descs) for _ in range(n_rnd)]
     run_stream(chk, "json/random", rnd, thunks, stats, samples)
+    # 3b. histories on one tree: render it (to_json, to_dot), change a node in place -- the function of a function atom, the
+    #     function's own name, a constant, a variable's name, an operand --, render again: the second rendering is the rendering of
+    #     the tree as it is now
+    from predicate import fn_p, ne_p, to_dot
+
+    def _mk(name):
+        def f(x):
+            return True
+
+        f.__name__ = f.__qualname__ = name
+        return f
+
+    hist_n = 0
+    for first in ("to_json", "to_dot", "both"):
+        for shape in ("atom", "not", "and-left", "or-right"):
+            f1, f2 = _mk("first_fn"), _mk("second_fn")
+            a, n, v = fn_p(f1), ne_p(1), NamedPredicate(name="a")
+            tree = {"atom": lambda: a, "not": lambda: ~a, "and-left": lambda: (a & n), "or-right": lambda: (v | (n ^ a))}[shape]()
+            steps = [("p.predicate_fn = second_fn", lambda: setattr(a, "predicate_fn", f2)), ("second_fn.__name__ = 'renamed_fn'", lambda: setattr(f2, "__name__", "renamed_fn")),
+                     ("ne.v = 'seven'", lambda: setattr(n, "v", "seven")), ("var.name = 'zz'", lambda: setattr(v, "name", "zz"))]
+            done = []
+            try:
+                if first in ("to_json", "both"):
+                    to_json(tree)
+                if first in ("to_dot", "both"):
+                    to_dot(tree)
+            except Exception:  # noqa: BLE001
+                pass
+            for sname, step in steps:
+                step()
+                done.append(sname)
+                hist_n += 1
+                try:
+                    j = to_json(tree)
+                except Exception as e:  # noqa: BLE001
+                    chk.add_failure({"history": f"{first}(tree); " + "; ".join(done) + "; to_json(tree)", "tree": shape}, {"what": f"to_json raised {type(e).__name__} on a tree that was changed in place"}, None)
+                    break
+                bad = judge(tree, j)
+                if bad:
+                    chk.add_failure({"history": f"{first}(tree); " + "; ".join(done) + "; to_json(tree)", "tree": shape}, {"what": "the rendering is not the rendering of the tree as it is now", "complaints": bad[:3], "json": repr(j)[:300]}, None)
+                    break
+    chk.evaluations += hist_n
+    chk.extra["render_change_render_histories"] = hist_n
     # 4. the json command of main.py (an anchor of C18): what it prints is the JSON of the tree it parsed, for every expression,
     #    constants at the root included (judged by C20's reference reader, no model involved)
     from . import c20
@@ -516,6 +559,10 @@ def replay(path):
         print("main.py json", repr(spec["text"]), "->", res)
         print("judged   :", bad or "stdout is the JSON of the expression")
         return 1 if bad else 0
+    if isinstance(spec, dict) and "history" in spec:
+        from ..core import replay_by_rerun
+
+        return replay_by_rerun(main, path)
     if d.get("kind") != "failing-input" or not isinstance(spec, list):
         return 1
     thunks = dict(all_thunks())
